@@ -88,8 +88,9 @@ ArithInt(op, l, r) ==
          IF r.v <= 0 THEN Undef("mod-by-nonpositive")
          ELSE IF det < INF THEN Ok(TInt(w), l.v % r.v, 0, FALSE, tg)
          ELSE Ok(TInt(w), l.v % r.v, INF, FALSE,
-                 tg \cup (IF r.v \in {1, 2, 4, 8, 16, 32, 64, 128, 256, 512, 1024, 2048, 4096, 8192, 16384, 32768}
-                          THEN {} ELSE {"mod-not-power-of-two"}))
+                 \* the library computes x & (y - 1): right for every power of two; a constant y that is not
+                 \* one is rejected; a NON-constant y is assumed to hold a power of two (known finding)
+                 tg \cup (IF r.lit THEN {} ELSE {"mod-by-non-constant"}))
     [] op = "FloorDiv" ->
          IF r.v <= 0 THEN Undef("div-by-nonpositive")
          ELSE Ok(TInt(w), l.v \div r.v, IF det < INF THEN 0 ELSE INF, FALSE, tg)
